@@ -429,6 +429,38 @@ def model_routes(ctx, routes, route_res):
     return dis, len(vals)
 
 
+def gen_loky_loops(rng, quick):
+    cases = [{"mode": "loky_loop", "dtype": "<f8", "shape": [5000], "max_nbytes": 0, "iterations": 12, "fill": "full"},
+             {"mode": "loky_loop", "dtype": rng.choice(["<i4", ">f4", "<f8"]), "shape": rng.choice([[300, 20], [64, 64]]),
+              "max_nbytes": rng.choice([100, 1000]), "iterations": 10, "fill": "arange", "order": rng.choice(["C", "F"]),
+              "tasks": 3}]
+    if not quick:
+        cases += [{"mode": "loky_loop", "dtype": [["a", "<i4"], ["b", ">f8"]], "shape": [2000], "max_nbytes": 0,
+                   "iterations": 20, "fill": "arange"},
+                  {"mode": "loky_loop", "dtype": "<f8", "shape": [5000], "max_nbytes": 0, "iterations": 12, "fill": "full",
+                   "backend": "multiprocessing"}]
+    return cases
+
+
+def judge_loky_loop(c, r):
+    if "harness_error" in r:
+        return "the case could not be run: " + r["harness_error"] + r.get("tb", "")[-300:]
+    if "parallel_raise" in r:
+        return "a managed Parallel(max_nbytes=%s) raised %s at call %d" % (c["max_nbytes"], r["parallel_raise"], len(r["rows"]))
+    stale = []
+    for row in r["rows"]:
+        for g in row["got"]:
+            if g["digest"] != row["want"]["digest"]:
+                stale.append((row["it"], row["want"]["first"], g["first"]))
+                break
+    if stale:
+        it, want, got = stale[0]
+        return ("managed Parallel(n_jobs=2, max_nbytes=%s), a fresh %s%s array per call: at call %d the array started with %s "
+                "but the task saw %s; %d of %d calls presented values of another array" % (
+                    c["max_nbytes"], c["dtype"], c["shape"], it, want, got, len(stale), len(r["rows"])))
+    return None
+
+
 def judge_loky(c, r):
     if "harness_error" in r:
         return "harness error " + r["harness_error"] + r.get("tb", "")
@@ -709,6 +741,7 @@ def run(ctx):
         arr = [json.loads(l) for l in open(corpus_path) if l.strip()] + arr
     red = gen_reduce(rng, 160 if quick else 2000)
     lok = gen_loky(rng, quick)
+    loops = gen_loky_loops(rng, quick)
     routes = gen_routes(rng, 60 if quick else 600)
     mat = [{"mode": "loadmatrix", "payload": pk, "form": f} for pk in ("array", "object")
            for f in (0, 3, "gzip", "bz2", "lzma", "xz")]
@@ -716,8 +749,9 @@ def run(ctx):
     red_res = run_parallel(red)
     route_res = run_parallel(routes)
     mat_res = run_parallel(mat, workers=6)
-    with cf.ThreadPoolExecutor(3) as ex:
-        lok_res = list(ex.map(lambda c: run_impl_cases([c])[0], lok))
+    with cf.ThreadPoolExecutor(4) as ex:
+        both = list(ex.map(lambda c: run_impl_cases([c])[0], lok + loops))
+    lok_res, loop_res = both[:len(lok)], both[len(lok):]
     oracle_fail, known_hits = [], {}
     dist = {"dtype_kinds": {}, "layouts": {}, "forms": {}, "targets": {}, "mmap_modes": {}, "ranks": {}}
     nontrivial = set()
@@ -751,6 +785,12 @@ def run(ctx):
         bad = judge_loky(c, r)
         if bad:
             oracle_fail.append((bad, c, r, None))
+    addr_reuse = 0
+    for c, r in zip(loops, loop_res):
+        bad = judge_loky_loop(c, r)
+        if bad:
+            oracle_fail.append((bad, c, {"rows": r.get("rows", [])[:3]}, None))
+        addr_reuse += r.get("addresses_reused", 0)
     route_dist = {}
     for c, r in zip(routes, route_res):
         bad = judge_route(c, r)
@@ -812,9 +852,11 @@ def run(ctx):
                            "correspondence": "Gen/C19_Padding.v + Model/ArrayLayout.v vs NumpyArrayWrapper / _reduce_memmap_backed"},
                           found_input=False)
     ctx.finish({
-        "evaluations": len(arr) + len(red) + len(lok) + len(kc) + len(routes) + 75 * len(mat),
+        "evaluations": len(arr) + len(red) + len(lok) + len(kc) + len(routes) + 75 * len(mat) + sum(c["iterations"] for c in loops),
         "load_dispatch_combinations": 75 * len(mat),
         "reducer_routes": route_dist,
+        "managed_parallel_loops": {"cases": len(loops), "calls": sum(c["iterations"] for c in loops),
+                                   "fresh_arrays_allocated_at_a_dead_arrays_address": addr_reuse},
         "distinct_nontrivial": len(nontrivial),
         "rule": "arrays: dtype (%d kinds incl. structured/nested/aligned/object/datetime/both endiannesses) x shape (0-d, "
                 "empty, 1..4-d) x layout (C, F, transposed, strided, negative stride, broadcast, matrix, ndarray subclass, "
@@ -861,6 +903,10 @@ def replay(ctx, path):
     elif c["mode"] == "route":
         b = judge_route(c, r)
         bad = (b, None) if b else None
+    elif c["mode"] == "loky_loop":
+        b = judge_loky_loop(c, r)
+        bad = (b, None) if b else None
+        r = {"calls": len(r.get("rows", [])), "addresses_reused": r.get("addresses_reused")}
     elif c["mode"] == "loadmatrix":
         fails, _, _ = c03mod.load_matrix_check(ctx, [c], [r], k, c["payload"])
         only = c.get("only")
